@@ -121,15 +121,19 @@ NOT_APPLICABLE = {
 _MORE = {
     'C01': ' Hunk headers without counts, `\\ No newline` markers, octal-escaped and quoted names are part of the grammar; the blank-line / dominant-author projection to lines is decided under C16.',
     'C02': ' Also decided: one step of the rebase / cherry-pick content replay (transform_changed_files_to_final_state with the real tracker, files of pairwise distinct lines: surviving AI lines keep their session, nothing else becomes AI); the cat-file --batch reader (every present blob back byte for byte); which tree entries have content (is_blob_mode); and the per-commit changed-file reader of the rebase replay over a model object store (changed files = tracked paths whose tree entry differs; content = the blob the tree names, also for a blob shared by two paths or two commits).',
-    'C03': ' Also decided: the fold of the working log (from_just_working_log: a person\'s rewrite clears earlier AI claims), reset --hard discarding pending claims, and the checkpoint path filter (C20) keeping a person\'s files out of an agent\'s checkpoint.',
+    'C03': ' Also decided: the fold of the working log (from_just_working_log: a person\'s rewrite clears earlier AI claims), reset --hard and forced checkout / switch (HEAD moving or not) discarding pending claims, the pre-command hooks of reset and --merge checkouts taking a Human checkpoint before the working log is read, the stash note carrying exactly the stashed files, and the checkpoint path filter (C20) keeping a person\'s files out of an agent\'s checkpoint. One recorded finding lives in a concrete history and is shown by a native scenario on every run.',
     'C04': ' Also decided: prompts of every pending session are carried (INITIAL / note), the files the post-commit step re-examines include every INITIAL file and AI checkpoint entry, and the files `commit --amend` re-loads include every file with a pending AI line in an entry of any checkpoint kind (native replay through a real amend).',
     'C05': ' Also decided: notes_add_batch against a model of git fast-import (one note per commit, last entry wins, other notes untouched), and the per-commit loop of the slow rebase path with git as environment: every note written names its own commit, has a record for every session it attests, lists only files of that commit and exactly the surviving lines (native replay on plumbing-built histories).',
     'C06': ' Also decided: the child gets its own process group iff stdin is not a terminal (terminal facts are environment values for every descriptor), terminating signals are forwarded to it, and the exit status / signal is the child\'s (native replay under a pty with a stand-in git).',
-    'C07': ' Also decided: the journal step under every corruption and single fault returns or panics (absorbed) and never exits, and it terminates (leftover lock file); a failing pre-commit step lets git run or exits non-zero after a diagnostic.',
+    'C07': ' Also decided: the journal step under every corruption and single fault returns or panics (absorbed) and never exits, and it terminates (leftover lock file); a failing pre-commit step lets git run or exits non-zero after a diagnostic; the storage handle built before every wrapped command never panics whatever is in the way under .git/ai; the pre- and post-command dispatchers come back when every hook body panics.',
     'C08': ' Also decided: the real upload enqueue with the database as environment (per-prompt failure), and the storage policy (exclusion wins; include lists; fallback) with glob matching as an arbitrary consistent predicate decided up front.',
     'C09': ' Also decided: the porcelain reader (every final line keeps commit, original number and the originating path git printed, C-quoted names), the split of hunks by the person behind a session, the JSON writer (exactly the sessions\' lines), notes tree fan-out, and four real rename histories through the whole pipeline on every run.',
     'C12': ' Also decided: the argv that finally reaches git at the patch and numstat call sites carries every neutralising option (incl. --no-renames), and find_repository keeps the commands git-ai runs itself at the repository root for every combination of start directory and user global options (judged by git\'s own -C rule, replayed with real git).',
-    'C14': ' Also decided: the pre-commit early exit is taken only when no AI checkpoint ever recorded a file, and every AI-touched file (also one git reports as untracked) reaches the pre-commit scanner.',
+    'C14': ' Also decided: the pre-commit early exit is taken only when no AI checkpoint ever recorded a file, every AI-touched file (also one git reports as untracked) reaches the pre-commit scanner, the commit-time Human checkpoint is taken whatever the index holds, and every checkpoint handed to the working log is stored with its entries.',
+    'C16': ' Also decided: moved blocks and whitespace-only reformats keep their line authors, and a block that is re-indented while it moves stays inside the new text and on character boundaries.',
+    'C17': ' Paths containing a line feed and hashes containing a space are exercised and recorded as findings of the line-based format.',
+    'C18': ' Alias names are matched case-insensitively (typed or reached from another alias in another case).',
+    'C20': ' Also decided: files of a repository nested in the working repository, and of a sibling whose name extends the working repository\'s, reach their own repository; every preset is run with a payload directory different from the process directory; the VS Code hook path normaliser never panics on short texts (one byte, multi-byte first character, URIs).',
     'C19': ' Also decided: each tool is credited with exactly the lines of its sessions (a line listed twice counts once, for the last entry).',
 }
 for _k, _t in _MORE.items():
